@@ -62,15 +62,23 @@ class Contract:
         """Exceptional postcondition: whenever `exc` (or a subclass) escapes, `f` holds of the state at the raise."""
         self.exc_ensures_.append((exc, label, f))
 
-    def modifies(self, *keys, refs: Optional[Callable] = None) -> None:
+    def modifies(self, *keys, refs: Optional[Callable] = None, fresh_only: bool = False) -> None:
+        """Frame: the callee may change these heap arrays -- everywhere (refs=None), only at the listed references, or (fresh_only)
+        only at the listed references and at references that were not allocated before the call."""
         self.modifies_declared = True
         for k in keys:
-            self.modifies_.append((k, refs))
+            self.modifies_.append((k, refs) if not fresh_only else (k, _FreshOnly(refs)))
 
     def assume(self, reason: str) -> None:
         self.assumed = True
         self.assumed_reason = reason
         ASSUMPTION_MARKERS.append(("assumed-contract", f"{self.target}: {reason}"))
+
+
+class _FreshOnly:
+    """Marker wrapping a refs-callable: besides those refs only previously unallocated references may change."""
+    def __init__(self, refs: Optional[Callable]) -> None:
+        self.refs = refs
 
 
 class Invariant:
